@@ -78,14 +78,6 @@ pub proof fn lemma_requests_end(d: Seq<u8>, n: nat)
 }
 
 // ------------------------------ C06 at the level of commands ------------------------------
-/// the request a client sends for a command
-pub open spec fn req_frame(c: SCmd) -> SFrame {
-    match c {
-        SCmd::Get(k) => SFrame::Array(seq![SFrame::Bulk(command::b_get()), SFrame::Bulk(k)]),
-        SCmd::Set(k, v) => SFrame::Array(seq![SFrame::Bulk(command::b_set()), SFrame::Bulk(k), SFrame::Bulk(v)]),
-        SCmd::Del(ks) => SFrame::Array(seq![SFrame::Bulk(command::b_del())] + Seq::new(ks.len(), |i: int| SFrame::Bulk(ks[i]))),
-    }
-}
 /// a well-formed request: keys are UTF-8, DEL names at least one key, sizes fit the protocol's i64 lengths
 pub open spec fn cmd_ok(c: SCmd) -> bool {
     match c {
